@@ -35,7 +35,7 @@ CHECKS = {
         "model_checking",
         "tlc",
         "TLC explicit-state exploration of an independent TLA+ transcription of PS3.8 9.2; every edge and non-edge of the dumped graph replayed on the real StateMachine.do_action",
-        "TLC enumerates the complete transition relation of models/PS38.tla (all 13 states x 19 events x roles x protocol-version) and checks the transcription's own invariants; all 988 (state,event,role,pv) cases - 492 edges and 496 non-edges - are replayed on the real state machine with a recording socket/timer and the next state and full effect set compared.  The space is finite and completely covered.",
+        "TLC enumerates the complete transition relation of models/PS38.tla (all 13 states x 19 events x roles x protocol-version) and checks the transcription's own invariants; all 988 (state,event,role,pv) cases - 492 edges and 496 non-edges - are replayed on the real state machine with a recording socket and the real ARTIM timer on a fake clock (every edge from three timer histories: never started, running, stopped) and the next state and full effect set compared, the ARTIM effect by whether the real timer subsequently expires.  The space is finite and completely covered.",
         "Trusts TLC, the transcription of PS3.8 in models/PS38.tla (DESIGN.md A.3) and the recording doubles under the real AssociationSocket/Timer.",
         "3/C04",
     ),
@@ -59,7 +59,7 @@ CHECKS = {
         "model_checking",
         "sim",
         "enumeration of every arrival point of a peer's A-RELEASE-RQ relative to the real service-class loops, with deviation-bounded schedule exploration around it",
-        "A byte-level raw peer runs C-FIND, C-GET and C-MOVE operations against the real acceptor (handlers yielding 0..3 results; C-MOVE sub-operations run over a real sub-association to a second real AE under the same scheduler) and sends A-RELEASE-RQ while idle, at every yield position (the handler is held until the request has reached the local provider), in place of every C-STORE sub-operation response of a C-GET and after the final response; quick: default schedule for all 58 arrival points plus all schedules with <= 1 deviation for the n=2 cases, thorough: <= 1 deviation for all.  The peer must receive A-RELEASE-RP promptly and the local association must end released, unless pynetdicom aborted for the documented DIMSE-timeout reason.",
+        "A byte-level raw peer runs C-FIND, C-GET and C-MOVE operations against the real acceptor (handlers yielding 0..3 results; C-MOVE sub-operations run over a real sub-association to a second real AE under the same scheduler) and sends A-RELEASE-RQ while idle, back to back with the request (one and two segments), at every yield position (the handler is held until the request has reached the local provider), in place of every C-STORE sub-operation response of a C-GET and after the final response; quick: default schedule for all 82 arrival points plus all schedules with <= 1 deviation for the n=2 cases, thorough: <= 1 deviation for all.  The peer must receive A-RELEASE-RP promptly and the local association must end released, unless pynetdicom aborted for the documented DIMSE-timeout reason.",
         "Same trusted base as C05/C06.",
         "3/C07",
     ),
